@@ -4,10 +4,11 @@ from __future__ import annotations
 import ast
 
 from ..cfg import cfg_of, T as TRUE, F as FALSE
-from ..dataflow import derives, rd_of
+from ..dataflow import derives, rd_of, resolve_local, return_values, expand_locals
 from ..loader import dotted, walk_no_nested
 from ..tables import CompilerTable, GLOBAL_OPS, class_of_expr, command_ops, op_classes
 from . import common_hbar as Hb
+from .common_guard import path_facts, raise_facts, facts
 
 # backend methods for which "p0 == 0 is the identity and -p0 is the inverse" holds, with the documented formula
 FIRST_PARAM_SOUND = {
@@ -235,17 +236,28 @@ def mesh_table(ctx, rule="C02.mesh"):
                 "function of that name in decompositions.py that returns a 3-tuple.")
     init = ctx.tree.func("ops.py", "Interferometer.__init__")
     dec = ctx.tree.func("ops.py", "Interferometer._decompose")
-    names = None
-    for n in walk_no_nested(init.node):
-        if isinstance(n, ast.Assign) and dotted(n.targets[0]) == "allowed_meshes" and isinstance(n.value, ast.Set):
-            names = [e.value for e in n.value.elts if isinstance(e, ast.Constant)]
-    ctx.require(names, "Interferometer.__init__ no longer defines allowed_meshes as a set display")
+    # the set of allowed names is whatever the raising membership guard on `mesh` tests against
+    names, guard_ok = None, False
+    icfg = cfg_of(init.node)
+    for n in icfg.nodes:
+        if n.kind != "if":
+            continue
+        for c in ast.walk(n.ast):
+            if isinstance(c, ast.Compare) and len(c.ops) == 1 and isinstance(c.ops[0], (ast.In, ast.NotIn)) and \
+                    dotted(c.left) == "mesh":
+                v = resolve_local(init.node, c.comparators[0])
+                if isinstance(v, (ast.Set, ast.List, ast.Tuple)):
+                    names = [e.value for e in v.elts if isinstance(e, ast.Constant)]
+                    guard_ok = icfg.ends_in_raise(n.id, TRUE) or icfg.ends_in_raise(n.id, FALSE)
+    ctx.require(names, "Interferometer.__init__ no longer tests `mesh` against a display of allowed names")
     explicit = set()
     for n in walk_no_nested(dec.node):
-        if isinstance(n, ast.Compare) and dotted(n.left) == "mesh" and isinstance(n.ops[0], ast.Eq) and \
-                isinstance(n.comparators[0], ast.Constant):
+        if isinstance(n, ast.Compare) and isinstance(n.ops[0], ast.Eq) and isinstance(n.comparators[0], ast.Constant) \
+                and isinstance(n.comparators[0].value, str) and "self.mesh" in derives(dec.node, n.left).attrs:
             explicit.add(n.comparators[0].value)
-    uses_getattr = any(isinstance(n, ast.Call) and dotted(n.func) == "getattr" and n.args and dotted(n.args[0]) == "dec"
+    uses_getattr = any(isinstance(n, ast.Call) and dotted(n.func) == "getattr" and len(n.args) >= 2 and
+                       (ctx.tree.resolve_dotted(ctx.tree.module("ops.py"), dotted(n.args[0]) or "?") or ("", None))[0] == "module" and
+                       "self.mesh" in derives(dec.node, n.args[1]).attrs
                        for n in walk_no_nested(dec.node))
     dm = ctx.tree.module("decompositions.py")
     for m in sorted(names):
@@ -256,14 +268,13 @@ def mesh_table(ctx, rule="C02.mesh"):
         ok = uses_getattr and g is not None
         why = "" if ok else f"mesh '{m}' is allowed but neither handled explicitly nor a function of decompositions.py"
         if ok:
-            rets = [r for r in walk_no_nested(g.node) if isinstance(r, ast.Return) and r.value is not None]
-            ok = all(isinstance(r.value, ast.Tuple) and len(r.value.elts) == 3 or isinstance(r.value, ast.Call)
-                     for r in rets)
+            rets = [v for _, v in return_values(g.node)]
+            ok = all(isinstance(v, ast.Tuple) and len(v.elts) == 3 or isinstance(v, ast.Call) for v in rets)
             why = "" if ok else f"decompositions.{m} does not return the (BS1, R, BS2) triple the caller unpacks"
         ctx.ob(rule, dec.site, ok, why, role=f"mesh:{m}", line=dec.node.lineno)
     # the guard that rejects unknown meshes
     cfg = cfg_of(init.node)
-    ok = any(n.kind == "if" and "allowed_meshes" in ast.unparse(n.ast) and cfg.ends_in_raise(n.id, TRUE) for n in cfg.nodes)
+    ok = guard_ok
     ctx.ob(rule, init.site, ok, "" if ok else "unknown mesh names are no longer rejected", role="guard", line=init.node.lineno)
     ctx.floor(rule, 8)
 
@@ -286,12 +297,13 @@ def driver(ctx, rule="C02.driver"):
     ctx.ob(rule, f.site, ok, "" if ok else "the option dict of self.decompositions[op_name] is not passed to op.decompose "
            "(X-series compilers select the symmetric mesh this way)", role="options", line=dc.lineno)
     # products only reach the output through the recursive call
+    cmdvar = (dotted(dc.func.value) or "cmd.op").split(".")[0]
     ext = [n for n in walk_no_nested(f.node) if isinstance(n, ast.Call) and isinstance(n.func, ast.Attribute)
            and n.func.attr in ("extend", "append") and n.args]
     ok = False
     for e in ext:
         d = derives(f.node, e.args[0])
-        if d.has_call("cmd.op.decompose"):
+        if d.has_call(f"{cmdvar}.op.decompose"):
             ok = d.has_call("self.decompose")
             if not ok:
                 break
@@ -300,12 +312,12 @@ def driver(ctx, rule="C02.driver"):
     # appends of the original command are guarded by `in self.primitives`
     n_app = 0
     for e in ext:
-        if e.func.attr == "append" and dotted(e.args[0]) == "cmd":
+        if e.func.attr == "append" and dotted(resolve_local(f.node, e.args[0])) == cmdvar:
             n_app += 1
             i = cfg.node_of_expr(e)[0]
-            conds = cfg.branch_conditions(i)
-            ok = any(cfg.node(h).kind == "if" and "self.primitives" in ast.unparse(cfg.node(h).ast) and lab == TRUE
-                     for h, lab in conds)
+            ok = any(truth and isinstance(a, ast.Compare) and isinstance(a.ops[0], ast.In) and
+                     "self.primitives" in ast.unparse(expand_locals(f.node, a.comparators[0]))
+                     for a, truth in path_facts(cfg, i))
             ctx.ob(rule, f.site, ok, "" if ok else "a command is accepted as is without being a primitive of the compiler",
                    role=f"primitive-guard{n_app}", line=e.lineno)
     # final else raises CircuitError
